@@ -80,6 +80,49 @@ def local_algorithms(local):
         cconn.locally_supported_compressions, cconn.segment_codec_lz4 = saved
 
 
+# ------------------------------------------------------------------ the factory thread's point of view
+class WatchedEvent:
+    """connected_event of the connection under test.  set() is the instant at which a thread blocked in
+    Connection.factory (connected_event.wait()) can be woken: right then the factory-side decision
+    (`if conn.last_error: raise ... else: return conn`) is evaluated and logged, i.e. what that thread would
+    do if it ran immediately - before the event-loop thread executes its next statement."""
+
+    def __init__(self, conn, inner):
+        self._conn, self._inner = conn, inner
+
+    def set(self):
+        first = not self._inner.is_set()
+        self._inner.set()
+        if first:
+            conn = self._conn
+            err = conn.last_error
+            conn.wakes.append(classify(err) if err else "ready")
+
+    def is_set(self):
+        return self._inner.is_set()
+
+    isSet = is_set
+
+    def clear(self):
+        self._inner.clear()
+
+    def wait(self, timeout=None):
+        return self._inner.wait(timeout)
+
+
+class WatchedConnection(SimConnection):
+    """SimConnection whose connected_event (whatever Connection.__init__ assigns) is wrapped in a WatchedEvent."""
+
+    @property
+    def connected_event(self):
+        return self.__dict__["_watched_event"]
+
+    @connected_event.setter
+    def connected_event(self, ev):
+        self.__dict__.setdefault("wakes", [])
+        self.__dict__["_watched_event"] = WatchedEvent(self, ev)
+
+
 # ------------------------------------------------------------------ the scripted server
 class ScriptNode:
     """A node that accepts connections, keeps what they write and says nothing by itself."""
@@ -346,7 +389,7 @@ def execute(cfg, chooser, probe=True, rng=None):
         if not world.conns:
             return
         conn = world.conns[-1]
-        if event is not conn.connected_event or run["conn"] is not None:
+        if event is not conn.connected_event._inner or run["conn"] is not None:
             return
         run["conn"] = conn
         srv = Server(node, conn, cfg["ver"], rng)
@@ -368,7 +411,7 @@ def execute(cfg, chooser, probe=True, rng=None):
     world.on_block = on_block
     with local_algorithms(cfg["local"]):
         try:
-            conn = SimConnection.factory(DefaultEndPoint(ADDR), 5.0, **conn_kwargs(cfg))
+            conn = WatchedConnection.factory(DefaultEndPoint(ADDR), 5.0, **conn_kwargs(cfg))
             run["factory"], run["factory_exc"] = "ready", None
         except Exception as exc:
             conn = world.conns[-1] if world.conns else None
@@ -380,6 +423,7 @@ def execute(cfg, chooser, probe=True, rng=None):
                 run["conn"] = conn
                 run["obs"].append(project(conn, node))
             run["final"] = project(conn, node)
+            run["wakes"] = list(getattr(conn, "wakes", []))
             if probe and run["factory"] == "ready":
                 try:
                     with conn.lock:
@@ -418,6 +462,11 @@ def replay(states):
             return {"step": i, "action": act, "diff": d, "error": obs[i]["error"]}
     last = [s for s in states if s["act"]["name"] != "Probe"][-1]
     want = last["outcome"] if last["outcome"] != "pending" else "conn_error"     # nobody answers any more: timeout
+    # the instant connected_event was set: what a factory thread woken right then decides
+    wakes = run.get("wakes") or []
+    if wakes and wakes[0] != want:
+        return {"step": len(spec_states), "action": {"k": "connected_event.set"},
+                "diff": {"wake": {"spec": want, "code": "%s (last_error not yet recorded)" % wakes[0] if wakes[0] == "ready" else wakes[0]}}}
     if run["factory"] != want:
         return {"step": len(spec_states), "action": {"k": "factory"},
                 "diff": {"factory": {"spec": want, "code": "%s (%s)" % (run["factory"], run["factory_exc"])}}}
@@ -485,6 +534,8 @@ def record(rng, versions, max_len):
         ev.append({"e": "Silence", "post": _post(run["final"]), "factory": run["factory"]})
     else:
         ev[-1]["factory"] = run["factory"]
+    if run.get("wakes"):
+        ev[-1]["wake"] = run["wakes"][0]
     if run["probe"] is not None:
         ev.append({"e": "Probe", "post": _post(run["probe"])})
     return ev
